@@ -273,6 +273,110 @@ def history_witness(prog, done, seed):
 
 
 def reduced_witness(done, seed):
+    """replays a history of ReducedMechanisticModel operations (names as in contracts/c11.reduced; a trailing '!' marks an operation that raised a
+    documented error) on the real chi over the numeric stand-in solver, and compares names, counts, sensitivity status and simulation results
+    with a freshly created model that receives only the net configuration (documented semantics: fixing by name, None frees; set_outputs resets
+    the sensitivity settings; renaming applies to the last free parameter)"""
+    from contracts import mech
+    chi = real_chi()
+    f = [x for x in mech.library_files() if x.endswith('pk_one_comp.xml')][0]
+
+    def base():
+        m = chi.PKPDModel(f)
+        m.set_administration('central', direct=False)
+        return m
+    try:
+        r = chi.ReducedMechanisticModel(base())
+        names = list(r.mechanistic_model().parameters())
+        fixed, sens, regimen, outputs = {}, False, False, None
+        for nm in done:
+            failed = nm.endswith('!')
+            nm = nm.rstrip('!')
+            inner_names = r.mechanistic_model().parameters()
+            try:
+                if nm == 'fix_first':
+                    r.fix_parameters({inner_names[0]: 1.5})
+                elif nm == 'fix_last':
+                    r.fix_parameters({inner_names[-1]: 2.5})
+                elif nm == 'free_first':
+                    r.fix_parameters({inner_names[0]: None})
+                elif nm == 'free_last':
+                    r.fix_parameters({inner_names[-1]: None})
+                elif nm == 'sens_on':
+                    r.enable_sensitivities(True)
+                elif nm == 'sens_off':
+                    r.enable_sensitivities(False)
+                elif nm == 'regimen':
+                    r.set_dosing_regimen(dose=1.0, start=0.0, duration=0.5, period=2.0, num=3)
+                elif nm == 'rename':
+                    r.set_parameter_names({r.parameters()[-1]: 'Q%d' % len(r.parameters())})
+                elif nm == 'outputs':
+                    r.set_outputs([r.outputs()[0]])
+                elif nm == 'simulate':
+                    r.simulate(np.arange(1, r.n_parameters() + 1, dtype=float), [1.0])
+            except Exception as ex:
+                if failed:
+                    continue
+                return {'what': 'operation %s raises %r natively' % (nm, ex), 'history': list(done), 'expected': 'no error', 'observed': repr(ex)}
+            if failed:
+                continue
+            # net configuration by the documented semantics
+            if nm == 'fix_first':
+                fixed[0] = 1.5
+            elif nm == 'fix_last':
+                fixed[len(names) - 1] = 2.5
+            elif nm == 'free_first':
+                fixed.pop(0, None)
+            elif nm == 'free_last':
+                fixed.pop(len(names) - 1, None)
+            elif nm == 'sens_on':
+                sens = True
+            elif nm == 'sens_off':
+                sens = False
+            elif nm == 'regimen':
+                regimen = True
+            elif nm == 'outputs':
+                outputs = True
+                sens = False
+            elif nm == 'rename':
+                free = [k for k in range(len(names)) if k not in fixed]
+                if free:
+                    names[free[-1]] = 'Q%d' % len(free)
+        inner = base()
+        if regimen:
+            inner.set_dosing_regimen(dose=1.0, start=0.0, duration=0.5, period=2.0, num=3)
+        if outputs:
+            inner.set_outputs([inner.outputs()[0]])
+        orig = inner.parameters()
+        ren = {o: n for o, n in zip(orig, names) if o != n}
+        if ren:
+            inner.set_parameter_names(ren)
+        fresh = chi.ReducedMechanisticModel(inner)
+        if fixed:
+            fresh.fix_parameters({names[k]: v for k, v in fixed.items()})
+        if sens:
+            fresh.enable_sensitivities(True)
+        case = {'history': list(done), 'net configuration': {'fixed': {names[k]: v for k, v in fixed.items()}, 'sensitivities': sens, 'regimen': regimen, 'first output only': bool(outputs), 'names': names}}
+        if list(r.parameters()) != list(fresh.parameters()) or r.n_parameters() != fresh.n_parameters():
+            return dict(case, what='parameters %s (n=%s), a fresh model with the net configuration has %s (n=%s)' % (r.parameters(), r.n_parameters(), fresh.parameters(), fresh.n_parameters()),
+                        expected=list(fresh.parameters()), observed=list(r.parameters()))
+        if bool(r.has_sensitivities()) != bool(fresh.has_sensitivities()) or bool(r.has_sensitivities()) != bool(r.mechanistic_model().has_sensitivities()):
+            return dict(case, what='has_sensitivities() = %s (wrapped model: %s), a fresh model with the net configuration has %s' % (r.has_sensitivities(), r.mechanistic_model().has_sensitivities(), fresh.has_sensitivities()),
+                        expected=bool(fresh.has_sensitivities()), observed=bool(r.has_sensitivities()))
+        x = 0.2 + 0.3 * np.arange(1, fresh.n_parameters() + 1, dtype=float)
+        times = [0.5, 1.0, 2.5]
+        a, b = r.simulate(x, times), fresh.simulate(x, times)
+        if isinstance(a, tuple) != isinstance(b, tuple):
+            return dict(case, what='simulate returns %s, a fresh model with the net configuration (sensitivities %s) returns %s' % (
+                'outputs and sensitivities' if isinstance(a, tuple) else 'outputs only', 'enabled' if sens else 'disabled', 'outputs and sensitivities' if isinstance(b, tuple) else 'outputs only'),
+                expected='tuple' if isinstance(b, tuple) else 'array', observed='tuple' if isinstance(a, tuple) else 'array')
+        aa, bb = (a if isinstance(a, tuple) else (a,)), (b if isinstance(b, tuple) else (b,))
+        for u, v, what, tol in zip(aa, bb, ('outputs', 'sensitivities'), (1e-6, 2e-3)):
+            u, v = np.asarray(u, dtype=float), np.asarray(v, dtype=float)
+            if u.shape != v.shape or not np.allclose(u, v, rtol=tol, atol=tol * 1e-2):
+                return dict(case, what='simulated %s differ from those of a fresh model with the net configuration (shapes %s / %s)' % (what, u.shape, v.shape), expected=v.tolist(), observed=u.tolist())
+    except Exception as ex:
+        return {'what': 'native replay of %s raises %r' % (list(done), ex), 'history': list(done), 'expected': 'values', 'observed': repr(ex)}
     return None
 
 
